@@ -114,3 +114,61 @@ func VerifH_C06_table_growth_and_coroutines() {
 		verifAssert(len(out.res) == 1 && vhSame(out.res[0], vhInt(n)), "completed-run-did-all-the-work")
 	}
 }
+
+// require/release pairing in load() with a reader function: whatever the
+// reader does (pieces, end, a non-string, an error), a load that fails gives
+// nothing back to the program beyond nil and a message, so it may not lower the
+// memory counter below what it was before the call (no refund), and the
+// counter stays below the limit.
+var vhPieceLens = [3]int{1, 24, 64}
+
+func VerifH_C06_load_reader_pairing() {
+	run := vhNewRun()
+	npieces := verifChoose("npieces", 3)
+	plen := vhPieceLens[verifChoose("plen", 3)]
+	ending := verifChoose("ending", 4) // 0 nil (end of chunk), 1 true (not a string), 2 raises an error, 3 empty string
+	piece := ""
+	for len(piece) < plen {
+		piece += "-" // a chunk of '-' characters: a syntax error, or a comment when it starts with "--"
+	}
+	calls := 0
+	reader := rt.NewGoFunction(func(t *rt.Thread, c *rt.GoCont) (rt.Cont, error) {
+		calls++
+		if calls <= npieces {
+			return c.PushingNext1(t.Runtime, rt.StringValue(piece)), nil
+		}
+		switch ending {
+		case 1:
+			return c.PushingNext1(t.Runtime, rt.BoolValue(true)), nil
+		case 2:
+			return nil, rt.NewError(rt.StringValue("reader failed"))
+		case 3:
+			return c.PushingNext1(t.Runtime, rt.StringValue("")), nil
+		}
+		return c.PushingNext1(t.Runtime, rt.NilValue), nil
+	}, "reader", 0, false)
+	reader.SolemnlyDeclareCompliance(rt.ComplyCpuSafe | rt.ComplyMemSafe | rt.ComplyTimeSafe | rt.ComplyIoSafe)
+	fn := vhLibFn(run, "", "load")
+	mem := nondetUint64("M")
+	verifAssume(mem >= 1 && mem <= 4096)
+	var before, after uint64
+	finished := false
+	term := rt.NewTerminationWith(nil, 0, true)
+	ctx, _ := run.t.CallContext(rt.RuntimeContextDef{HardLimits: rt.RuntimeResources{Memory: mem}}, func() error {
+		before = run.t.UsedResources().Memory
+		err := rt.Call(run.t, fn, []rt.Value{rt.FunctionValue(reader)}, term)
+		after = run.t.UsedResources().Memory
+		finished = err == nil
+		return nil
+	})
+	verifAssert(ctx != nil && ctx.UsedResources().Memory < mem, "memory-counter-stays-below-the-limit")
+	if finished {
+		verifReach("load-returned")
+		res := term.Etc()
+		failed := len(res) >= 1 && res[0].IsNil()
+		if failed {
+			verifReach("load-failed")
+			verifAssert(after >= before, "failed-load-gives-no-memory-refund")
+		}
+	}
+}
